@@ -211,7 +211,10 @@ pub fn check_carried_over(seed: &[(Vec<u8>, Vec<u8>)], st: &StateCtx, sink: &mut
                 sink.v("C15", "C15/carried-over-bid-differs-from-reference-conversion".into(), format!("expected {exp:?}, on the book {got:?}"));
                 let same_rem = got.map_or(false, |g| (g.rem_base(), g.rem_quote(), g.rem_fee()) == (exp.rem_base(), exp.rem_quote(), exp.rem_fee()) && g.owner == exp.owner);
                 if !same_rem {
-                    sink.v("C06", "C06/carried-over-bid-records-other-remaining-amounts-than-were-escrowed".into(), format!("escrow still held for it {:?}, recorded {:?}", (exp.rem_base(), exp.rem_quote(), exp.rem_fee()), got.map(|g| (g.rem_base(), g.rem_quote(), g.rem_fee()))));
+                    let d = format!("escrow still held for it {:?}, recorded {:?}", (exp.rem_base(), exp.rem_quote(), exp.rem_fee()), got.map(|g| (g.rem_base(), g.rem_quote(), g.rem_fee())));
+                    sink.v("C06", "C06/carried-over-bid-records-other-remaining-amounts-than-were-escrowed".into(), d.clone());
+                    // ... and any cancel / expire / reject will return amounts other than what is escrowed for it
+                    sink.v("C04", "C04/carried-over-bid-records-other-remaining-amounts-than-were-escrowed".into(), d);
                 }
             }
         }
